@@ -46,6 +46,11 @@ def main():
                 ctx.lean["theorems"], ctx.lean["axioms"] = au["theorems"], au["axioms"]
                 if not au["ok"]:
                     broken.append("axiom audit: " + json.dumps(au["bad"])[:300] + au["log_tail"][-300:])
+            if a.tier == "thorough" and b["ok"]:
+                lc = common.leanchecker(mod.PROPERTY_FILES)
+                ctx.lean["leanchecker"] = lc
+                if not lc["ok"]:
+                    broken.append("leanchecker rejected the compiled modules: " + lc["log_tail"][-300:])
             fb = common.grep_forbidden(common.lean_sources())
             ctx.lean["forbidden"] = fb
             if fb:
